@@ -743,6 +743,9 @@ pub const CONFIRM_ITERS: u32 = 50;
 struct Fingerprint {
     progress: u64,
     kids: Vec<(i32, ProcSnap)>,
+    /// bytes sitting in the three pipes (moves when an API that hides its
+    /// operations, or `read_to_end`, makes progress)
+    fill: [i32; 3],
 }
 
 fn fingerprint(sh: &Shared) -> Fingerprint {
@@ -750,6 +753,7 @@ fn fingerprint(sh: &Shared) -> Fingerprint {
     Fingerprint {
         progress: sh.progress.get(),
         kids: pids.into_iter().map(|p| (p, sys::snap(p))).collect(),
+        fill: [sys::unread(sh.fd_in.get()), sys::unread(sh.fd_out.get()), sys::unread(sh.fd_err.get())],
     }
 }
 
@@ -806,6 +810,15 @@ fn classify_deadlock(sh: &Shared, on: BlockedOn) -> Option<(String, String)> {
     Some((child, cause.to_string()))
 }
 
+fn hang_key(h: &Hang) -> String {
+    match h {
+        Hang::Stall(w) => format!("stall/{w}"),
+        Hang::Deadlock { child, cause } => format!("deadlock/{child}/{cause}"),
+        Hang::ThreadBlocked { parent, child } => format!("blocked/{parent}/{child}"),
+        Hang::Watchdog(_) => "watchdog".into(),
+    }
+}
+
 pub struct Driven<T> {
     pub out: Option<T>,
     pub hang: Option<Hang>,
@@ -832,6 +845,8 @@ pub fn drive<T>(rt: &Runtime, fut: impl Future<Output = T>, sh: &Rc<Shared>, wat
         let mut hang: Option<Hang> = None;
         let mut killed_at: Option<Instant> = None;
         let mut polls = 0u64;
+        let mut wd_progress = u64::MAX;
+        let mut wd_since = Instant::now();
         let mut last_progress = u64::MAX;
         let mut idle_iters = 0u32;
         let mut idle_since = Instant::now();
@@ -865,10 +880,15 @@ pub fn drive<T>(rt: &Runtime, fut: impl Future<Output = T>, sh: &Rc<Shared>, wat
                 }
                 continue;
             }
-            if t0.elapsed() > watchdog {
+            if wd_progress != sh.progress.get() {
+                wd_progress = sh.progress.get();
+                wd_since = Instant::now();
+            }
+            if wd_since.elapsed() > watchdog || t0.elapsed() > watchdog * 6 {
                 hang = Some(Hang::Watchdog(format!(
-                    "case not finished after {} ms; trace: {:?}",
-                    watchdog.as_millis(),
+                    "case not finished: no completed operation for {} ms, {} ms in total; trace: {:?}",
+                    wd_since.elapsed().as_millis(),
+                    t0.elapsed().as_millis(),
                     sh.trace.borrow()
                 )));
                 kill_children(sh);
@@ -914,6 +934,12 @@ pub fn drive<T>(rt: &Runtime, fut: impl Future<Output = T>, sh: &Rc<Shared>, wat
             } else {
                 None
             };
+            // a candidate stands only while the *same* diagnosis is made
+            if let (Some(f), Some((_, h, _, _))) = (&found, &candidate)
+                && hang_key(f) != hang_key(h)
+            {
+                candidate = None;
+            }
             match (found, &candidate) {
                 (None, _) => candidate = None,
                 (Some(h), None) => candidate = Some((fp, h, idle_iters, Instant::now())),
@@ -927,6 +953,10 @@ pub fn drive<T>(rt: &Runtime, fut: impl Future<Output = T>, sh: &Rc<Shared>, wat
                         _ => (CONFIRM_ITERS, Duration::from_millis(500)),
                     };
                     if idle_iters - since_iters >= iters && since.elapsed() >= settle {
+                        sh.trace.borrow_mut().push(format!(
+                            "at verdict: ready={ready:?} fill={:?} idle_iters={idle_iters} (candidate since {since_iters})",
+                            fp.fill
+                        ));
                         hang = Some(h.clone());
                         kill_children(sh);
                         killed_at = Some(Instant::now());
